@@ -31,6 +31,9 @@ type Failure struct {
 	Signature string `json:"signature"`
 	Msg       string `json:"message"`
 	Step      int    `json:"step"`
+	// Case, when set, replaces the generated case in the replay file (e.g. narrowed to the one
+	// failing crash point so that the replay is minimal).
+	Case any `json:"-"`
 }
 
 func Failf(sig string, step int, format string, args ...any) *Failure {
@@ -330,6 +333,11 @@ func Check[C any](t *testing.T, prop string, gen func(*rapid.T) C, run func(C, *
 		}
 		if f != nil {
 			failedOnce = true
+			if f.Case != nil {
+				if nj, err := json.Marshal(f.Case); err == nil {
+					cj = nj
+				}
+			}
 			p := writeReplay(prop, t.Name(), cj, f)
 			st.mu.Lock()
 			st.Failed, st.FailureSig, st.FailureMsg, st.ReplayFile = true, f.Signature, clip(f.Msg, 4000), p
@@ -386,6 +394,9 @@ func Regress[C any](t *testing.T, prop string, dir string, run func(C, *Obs) *Fa
 		files, _ := filepath.Glob(filepath.Join(dir, sub, "*.json"))
 		sort.Strings(files)
 		for _, p := range files {
+			if ap, err := filepath.Abs(p); err == nil {
+				p = ap
+			}
 			b, err := os.ReadFile(p)
 			if err != nil {
 				t.Fatalf("harness: %v", err)
